@@ -143,6 +143,12 @@ func decodeSlice(b []byte, val reflect.Value, name string) (int, error) {
 		return buf.Pos(), buf.Error()
 	}
 
+	// every element takes at least one byte on the wire: a length beyond what is
+	// left of the message is wrong and must not be allocated
+	if int(n) > buf.Len() {
+		return buf.Pos(), errors.Errorf("array too large: %d elements in %d bytes", n, buf.Len())
+	}
+
 	pos := buf.Pos()
 	// a is a slice of []*Foo
 	a := reflect.MakeSlice(val.Type(), int(n), int(n))
